@@ -206,6 +206,24 @@ def gaussSolve (m k : Nat) (A B : Mat) : Option Mat :=
 def contractOk (m k : Nat) (A X B : Mat) : Bool :=
   (List.range m).all (fun i => (List.range k).all (fun j => decide (mmul m A X i j = B i j)))
 
+/-! ## `EIG.sweep` : which time constant the analysis of every round uses
+
+`sweep` writes the new value into `param.v` and calls `TDS.init()`; `TDS.init` returns at once when the
+routine is already initialised, and `System._store_tf` (the only writer of `dae.Tf`) is only reached
+from `System.init`. -/
+structure SwSt where
+  initialized : Bool
+  tfStored : Rat
+deriving Repr, DecidableEq
+
+def tdsInit (s : SwSt) (param : Rat) : SwSt :=
+  if s.initialized then s else { initialized := true, tfStored := param }
+
+/-- `dae.Tf` (at the address of the swept time constant) seen by `calc_As` in every round -/
+def sweepTf : SwSt → List Rat → List Rat
+  | _, [] => []
+  | s, v :: vs => (tdsInit s v).tfStored :: sweepTf (tdsInit s v) vs
+
 /-! ## decidable projections of a `calcAs` outcome (for concrete witnesses) -/
 def okDim : Except Err Res → Option Nat | .ok r => some r.dim | .error _ => none
 def okEntry : Except Err Res → Nat → Nat → Option Rat | .ok r, i, j => some (r.As i j) | .error _, _, _ => none
